@@ -652,7 +652,7 @@ func c15Key2(cs *c15Case) string {
 
 func driveC15(c *h.Ctx) error {
 	slog.SetDefault(slog.New(slog.NewTextHandler(io.Discard, nil)))
-	nRandom := c.Pick(260, 6000)
+	nRandom := c.Pick(260, 3000)
 	c.Rule(fmt.Sprintf("scenarios = connections x sequences of request batches x handler scripts over {IdPlaceholder, GetIdOrPlaceholder, SetIdPlaceholder, "+
 		"ClearIdPlaceholder, read-then-store} with values unique to the storing request, executed on the real code under a cooperative schedule that gates every request start, "+
 		"handler action and handler return. (a) exhaustive: all action sequences of length <= 2 over {read, set, clear} for a two-item batch x first item ok/failing, "+
